@@ -280,8 +280,7 @@ def run(ctx):
         return scripts
 
     def j_deep(c):
-        deep = c.tlc_gen("Timers", "Gen_Timers.tla", "Gen_sim.cfg", simulate=(1000000, 80), timeout=6 if quick else 60,
-                         workers=2, limit=2000 if quick else 40000)
+        deep = c.tlc_gen("Timers", "Gen_Timers.tla", "Gen_sim.cfg", simulate=(1000 if quick else 20000, 90), timeout=900, workers=2)
         scripts = dedupe([script_of(b, 4) for b in deep])
         run_scripts(c, exe, scripts, "deep", "alt", "Trace_small.cfg", "replay")
         return scripts
